@@ -298,6 +298,13 @@ func checkC09(c *Check) {
 		}
 	}
 
+	// ---- R6 the request's headers reach every matcher
+	c.Rule("R6", "E3 pass-through", "every call on the routing path hands the request's own http.Header on unchanged, from ServeHTTP's req.Header down to the leaf matchers", 8)
+	passThrough(c, isHTTPHeader, "headers", func(fn *ssa.Function, v ssa.Value) bool {
+		// ServeHTTP: req.Header
+		return len(fn.Params) >= 3 && vField(vParam(fn, 2), "Header")(v)
+	})
+
 	// ---- R5 who may set a matcher
 	c.Rule("R5", "E5 who-may-call", "header matchers are written only through SetHeaderMatcher, which is called only from Route.Headers (and by its own propagation)", 1)
 	for fn, cs := range setCalls {
@@ -387,4 +394,51 @@ func checkEviction(c *Check, fn *ssa.Function, s ssa.CallInstruction, next *ssa.
 	} else {
 		c.Bad(key+":evicts", p.Pos(s.Pos()), "a static route keeps its shortcut entry after header constraints are set: the shortcut dispatches without checking headers", blockPath(path))
 	}
+}
+
+// passThrough checks that every call from a routing-path function to another
+// module function hands over the caller's own parameter of the given type (or,
+// where the caller has none, a value accepted by origin).
+func passThrough(c *Check, isT func(types.Type) bool, what string, origin func(fn *ssa.Function, v ssa.Value) bool) int {
+	p := c.P
+	n := 0
+	for _, fn := range routingFuncs(p) {
+		own := -1
+		for i, prm := range fn.Params {
+			if isT(prm.Type()) {
+				own = i
+			}
+		}
+		allInstrs(fn, func(in ssa.Instruction) {
+			ci, ok := in.(ssa.CallInstruction)
+			if !ok {
+				return
+			}
+			cals := p.moduleCallees(ci.Common())
+			if len(cals) == 0 {
+				return
+			}
+			args := callArgs(ci.Common())
+			sig := cals[0].Params
+			for i, prm := range sig {
+				if i >= len(args) || !isT(prm.Type()) {
+					continue
+				}
+				// skip the receiver position
+				if i == 0 && cals[0].Signature.Recv() != nil {
+					continue
+				}
+				n++
+				key := p.FuncKey(fn) + ":passes-" + what + "-to:" + callName(ci.Common())
+				ok := false
+				if own >= 0 {
+					ok = vParam(fn, own)(args[i])
+				} else {
+					ok = origin(fn, args[i])
+				}
+				c.Cond(ok, key, p.Pos(in.Pos()), "the caller's own "+what+" is handed on unchanged", "the routing path hands "+vstr(args[i])+" instead of the request's "+what+" to "+callName(ci.Common()))
+			}
+		})
+	}
+	return n
 }
